@@ -657,7 +657,12 @@ func TestVerif_C29(t *testing.T) {
 		Config  string   `json:"config"`
 		History []string `json:"history"`
 	}
-	if r.ReplayInto(&rep) {
+	var srep c29SchedReplay
+	if r.ReplayInto(&srep) && srep.Sched {
+		c29SchedRun(r, srep.Kind, srep.Threads, srep.Beside, vmc.NewReplayChooser(srep.Choices))
+		r.Add("states", 1)
+		r.Add("transitions", 1)
+	} else if r.ReplayInto(&rep) {
 		for _, b := range configs {
 			if b.name == rep.Config {
 				step := mkStep(b)
@@ -681,6 +686,7 @@ func TestVerif_C29(t *testing.T) {
 			bounds = append(bounds, b.String())
 		}
 		r.Info["bounds"] = bounds
+		c29Sched(r)
 	}
 	found.emit(r)
 	if err := r.Finish(); err != nil {
